@@ -378,30 +378,7 @@ func runC12(c *eng.Ctx, thorough bool) {
 	}
 
 	// ---------- C12.4 cubbyhole keys start with the (substituted) client token
-	c.Clause("R5", "C12.4")
-	nCub := 0
-	for _, f := range c.P.Funcs {
-		if !strings.HasPrefix(eng.FuncName(f), "vault.(*CubbyholeBackend).") {
-			continue
-		}
-		for _, cl := range eng.Calls(f, `^<logical\.Storage>\.(Get|Put|Delete|List|ListPage)$`) {
-			a := cl.Common().Args
-			key := a[1]
-			if cl.Common().Method.Name() == "Put" {
-				if ks := eng.StructLitField(a[1], "Key"); len(ks) > 0 {
-					key = ks[0]
-				}
-			}
-			s := eng.ExprDeep(key)
-			nCub++
-			if strings.HasPrefix(s, `(req.ClientToken + "/")`) || strings.HasPrefix(s, `req.ClientToken + "/"`) {
-				c.OK(f, "cubbyhole storage key prefixed by the client token", cl.Pos(), s)
-			} else {
-				c.Violation(f, "cubbyhole storage key prefixed by the client token", cl.Pos(), "cubbyhole storage accessed under "+s+", not under req.ClientToken + \"/\": tokens could read each other's cubbyholes", nil)
-			}
-		}
-	}
-	c.Floor(nil, "cubbyhole storage accesses", nCub, 4)
+	c12gCubbyholeKeys(c)
 
 	// ---------- C12.5 ACL built in the token's namespace
 	if f := c.Fn("vault.(*Core).fetchACLTokenEntryAndEntity"); f != nil {
